@@ -41,7 +41,10 @@ def e2e_cases(tier):
     cases.append(("x", "d", ["../x", "./../x", "{P}/x", "..//x", "../d/../x", "e/../../x"]))
     # target d/y (inside a directory that also has a symlinked name ld -> d)
     cases.append(("d/y", "", ["d/y", "./d/y", "ld/y", "{P}/d/y", "{P}/ld/y", "d//y", "d/e/../y", "/{P}/d/y"]))
+    # lp: a symbolic link BESIDE the project directory that points to it (../lp/x is x)
+    cases.append(("x", "", ["x", "../lp/x", "{P}/../lp/x"]))
     if tier != "quick":
+        cases.append(("x", "d", ["../x", "../../lp/x", "../../lp/d/../x"]))
         cases.append(("d/y", "d", ["y", "./y", "../d/y", "../ld/y", "{P}/d/y", "e/../y"]))
         cases.append(("d/y", "ld", ["y", "../d/y", "../ld/y"]))
     return cases
@@ -57,6 +60,7 @@ def run_e2e(job):
         os.makedirs(P + "/d/e")
         os.makedirs(top + "/home")
         os.symlink("d", P + "/ld")
+        os.symlink("p", top + "/lp")
         Pr = os.path.realpath(P)
         with open(P + "/src", "w") as fh:
             fh.write("1\n")
